@@ -1,2 +1,125 @@
-/- Model driver for C05 (line protocol). Stub until the property's model lands. -/
-def main : IO Unit := pure ()
+/-
+  Model driver for C05 (line protocol, see harness/c05_main.c: same ops, same answers). Imports Model + Gen only.
+
+    base <hex> / orig <hex>                          -> "ok <len>"
+    one    <api> <flags> w | f <bit> | t <len> | e <off> <del> <inshex>
+    flips  <api> <flags> <from> <to>     truncs <api> <flags> <from> <to>
+        -> per damaged input "<tag> <ret> <consumed> <notices> <outlen> <lcp> <crc64 of the output, hex>"
+    api:  sd    = XzDecode.xzDecode        (lzma_stream_decoder + lzma_code(FINISH) loop)
+          sbd   = XzDecode.xzBufferDecode  (lzma_stream_buffer_decode)
+          alone / lzip / auto = Model/Alone.lean, Lzip.lean, Auto.lean (b-c16) with the LZMA1 model as payload and
+                  XzDecode.xzCall as the .xz decoder of the auto decoder
+    The environment is XzEnv.fastEnv (Model/Lzma2.lean rawDecode; checks = fast variants of Model/Check.lean, compared
+    with the list models by XzEnv.fastSelfTest before the first answer).
+-/
+import XzVerif.Model.Proto
+import XzVerif.Model.XzDecode
+import XzVerif.Model.XzEnv
+import XzVerif.Model.XzStruct
+import XzVerif.Model.Lzip
+import XzVerif.Model.Auto
+import XzVerif.Gen.C16
+open XzVerif XzVerif.Proto
+
+/-- the harness' output buffer size and memory limit -/
+def OUTCAP : Nat := 48 * 1048576
+def MEMLIMIT : Nat := 160 * 1048576
+
+structure St where
+  base : List UInt8 := []
+  orig : Array UInt8 := #[]
+
+def lcpGo (a : Array UInt8) : List UInt8 → Nat → Nat
+  | [], n => n
+  | b :: t, n => if h : n < a.size then (if a[n] = b then lcpGo a t (n + 1) else n) else n
+
+def hex16 (n : Nat) : String :=
+  String.ofList ((List.range 16).map fun i => hexDigit (n / 16 ^ (15 - i) % 16))
+
+def showEvents (ev : List Ret) : String :=
+  if ev.isEmpty then "-" else ",".intercalate (ev.map fun r => toString r.toNat)
+
+def modelPayload : Alone.Payload := fun o rest =>
+  let r := Lzma.lzmaDecode { lc := o.lc, lp := o.lp, pb := o.pb } o.dictSize o.uncomp o.allowEopm rest [] OUTCAP
+  { ret := r.ret, out := r.out, consumed := r.consumed }
+
+def runApi (api : String) (flags : Nat) (inp : List UInt8) : Option Alone.DRes :=
+  let memK := Gen.C16.memK
+  if api == "sd" then
+    if flags ≥ XzDecode.SUPPORTED_FLAGS_MASK then some { ret := .optionsError, out := [], consumed := 0 }
+    else some (XzDecode.xzDecode XzEnv.fastEnv (XzDecode.Flags.ofNat flags) inp OUTCAP)
+  else if api == "sbd" then some (XzDecode.xzBufferDecode XzEnv.fastEnv flags inp OUTCAP)
+  else
+    let f := Auto.Flags.ofNat flags
+    let acfg : Auto.Cfg := { flags := f, finish := true, memlimit := MEMLIMIT, memK := memK }
+    let fin (r : Alone.DRes) : Alone.DRes := if r.ret = .ok then { r with ret := .bufError } else r
+    if api == "alone" then some (fin (Alone.aloneDecode modelPayload { picky := false, memlimit := MEMLIMIT, memK := memK } inp))
+    else if api == "lzip" then some (fin (Lzip.lzipDecode modelPayload (Auto.lzipCfg acfg) inp))
+    else if api == "auto" then
+      let xz : Auto.Xz := fun i => XzDecode.xzCall XzEnv.fastEnv (XzDecode.Flags.ofNat flags) i OUTCAP
+      some (fin (Auto.autoDecode modelPayload xz acfg inp))
+    else none
+
+def runOne (s : St) (api : String) (flags : Nat) (inp : List UInt8) (tag : String) : String :=
+  match runApi api flags inp with
+  | none => "bad-op"
+  | some r =>
+    let outb := ByteArray.mk r.out.toArray
+    s!"{tag} {r.ret.toNat} {r.consumed} {showEvents r.events} {r.out.length} {lcpGo s.orig r.out 0} {hex16 (XzStruct.crc64Slice outb 0 outb.size)}"
+
+def flipBit (b : List UInt8) (bit : Nat) : List UInt8 :=
+  b.modify (bit / 8) fun x => x ^^^ (UInt8.ofNat (1 <<< (bit % 8)))
+
+def rangeLines (f : Nat → String) (from_ to : Nat) : String :=
+  "\n".intercalate ((List.range (to - from_)).map fun i => f (from_ + i))
+
+def step (s : St) (ws : List String) : St × String :=
+  match ws with
+  | ["base", hx] =>
+    match bytesOfHex hx with
+    | some b => ({ s with base := b }, s!"ok {b.length}")
+    | none => (s, "bad-op")
+  | ["orig", hx] =>
+    match bytesOfHex hx with
+    | some b => ({ s with orig := b.toArray }, s!"ok {b.length}")
+    | none => (s, "bad-op")
+  | ["one", api, flags, "w"] =>
+    match flags.toNat? with
+    | some fl => (s, runOne s api fl s.base "w")
+    | none => (s, "bad-op")
+  | ["one", api, flags, "f", bit] =>
+    match flags.toNat?, bit.toNat? with
+    | some fl, some bit => if bit / 8 ≥ s.base.length then (s, "bad-op") else (s, runOne s api fl (flipBit s.base bit) s!"f{bit}")
+    | _, _ => (s, "bad-op")
+  | ["one", api, flags, "t", n] =>
+    match flags.toNat?, n.toNat? with
+    | some fl, some n => if n > s.base.length then (s, "bad-op") else (s, runOne s api fl (s.base.take n) s!"t{n}")
+    | _, _ => (s, "bad-op")
+  | ["one", api, flags, "e", off, del, ins] =>
+    match flags.toNat?, off.toNat?, del.toNat?, bytesOfHex ins with
+    | some fl, some off, some del, some ins =>
+      if off > s.base.length ∨ del > s.base.length - off then (s, "bad-op")
+      else (s, runOne s api fl (s.base.take off ++ ins ++ s.base.drop (off + del)) "e")
+    | _, _, _, _ => (s, "bad-op")
+  | ["flips", api, flags, a, b] =>
+    match flags.toNat?, a.toNat?, b.toNat? with
+    | some fl, some a, some b =>
+      if a > b ∨ b > 8 * s.base.length then (s, "bad-op")
+      else if a = b then (s, "")
+      else (s, rangeLines (fun i => runOne s api fl (flipBit s.base i) s!"f{i}") a b)
+    | _, _, _ => (s, "bad-op")
+  | ["truncs", api, flags, a, b] =>
+    match flags.toNat?, a.toNat?, b.toNat? with
+    | some fl, some a, some b =>
+      if a > b ∨ b > s.base.length + 1 then (s, "bad-op")
+      else if a = b then (s, "")
+      else (s, rangeLines (fun i => runOne s api fl (s.base.take i) s!"t{i}") a b)
+    | _, _, _ => (s, "bad-op")
+  | _ => (s, "bad-op")
+
+def main : IO UInt32 := do
+  if !XzEnv.fastSelfTest then
+    IO.eprintln "xzm_c05: fastCheck differs from the Check/Sha256 models (self test)"
+    return 3
+  runLoop step {}
+  return 0
